@@ -234,6 +234,22 @@ class Interp:
             out.append(p)
         return out
 
+    def run_function(self, fn, args=None, this=None):
+        """evaluate fn under self.oracle, which must decide every atom; returns (outcome, path)"""
+        self.path = Path()
+        self.pre = []
+        self.assign = {}
+        self.depth = 0
+        self.steps = 0
+        try:
+            v = self.call_function(fn, args, this)
+            self.path.outcome = ("return", v)
+        except _Throw as t:
+            self.path.outcome = ("throw", t.ty)
+        except NeedDecision as nd:
+            raise Unsupported("atom not decided by the abstract domain: %s" % show(nd.atom))
+        return self.path.outcome, self.path
+
     def run_lambda(self, closure, op, args):
         """evaluate one call-operator specialisation of a closure under self.oracle, which must decide
         every atom (finite abstract domain); returns (value, path)"""
@@ -780,6 +796,8 @@ class Interp:
             return self.apply(f, args, unit, loc, this)
         qn = F.strip_targs(d["qn"])
         short = qn.split("::")[-1]
+        if "c" in n and qn.startswith("std::numeric_limits"):
+            return ("k", n["c"])
         if qn in TRANSPARENT:
             if n.get("recv") is not None:
                 return self.eval(unit, n["recv"], env, this)
